@@ -37,6 +37,7 @@ def main():
     if not ck.build():
         ck.finish()
     ck.check_props()
+    ck.check_translation("classification")
     cmax = 6 if ck.quick else 8
     nmax = 12 if ck.quick else 16
     ns = list(range(3, nmax + 1))
